@@ -20,6 +20,7 @@ import (
 	domainmatcher "github.com/IrineSistiana/mosproxy/internal/domain_matcher"
 	"github.com/IrineSistiana/mosproxy/internal/mlog"
 	"github.com/IrineSistiana/mosproxy/internal/pool"
+	"github.com/IrineSistiana/mosproxy/internal/verifhook"
 	"github.com/mitchellh/mapstructure"
 	"github.com/prometheus/client_golang/prometheus"
 	"github.com/prometheus/client_golang/prometheus/promhttp"
@@ -529,6 +530,7 @@ func (r *router) asyncSingleFlightPrefetch(q *dnsmsg.Question, remoteAddr netip.
 	}
 	qCopy := q.Copy()
 	go func() {
+		verifhook.Point("prefetch.start")
 		r.doPrefetch(qCopy, remoteAddr, u)
 		dnsmsg.ReleaseQuestion(qCopy)
 		r.prefetch.done(key)
